@@ -619,6 +619,8 @@ func main() {
 		uu := *u
 		uu.Manifests = nil
 		run.Eval(1)
+		// the caller reuses every buffer it handed to a Write
+		w.a.Scribble, w.b.Scribble = true, true
 		opts := model.GenOpts{Uploads: true, BadRange: true}
 		for i := 0; i < 30; i++ {
 			var op *model.Op
@@ -648,6 +650,24 @@ func main() {
 				if rng.IntN(3) == 0 {
 					op.Digest = model.Digest(data[cut:])
 				}
+			case 4:
+				// an upload written in pieces of exactly the size the writer asks for (or the size hinted), from
+				// one buffer the caller refills for every piece (io.CopyBuffer does just that)
+				size := []int{8192, 8192, 100, 10000, 1}[rng.IntN(5)]
+				hint := size
+				if size == 8192 && rng.IntN(2) == 0 {
+					hint = 0
+				}
+				var parts [][]byte
+				var all []byte
+				for k, n := 0, 2+rng.IntN(3); k < n; k++ {
+					p := bytes.Repeat([]byte{byte('a' + k + i%7)}, size)
+					copy(p, fmt.Sprintf("%d.%d.%d;", h, i, k))
+					parts = append(parts, p)
+					all = append(all, p...)
+				}
+				op = &model.Op{Kind: "Upload", Repo: uu.Repos[rng.IntN(len(uu.Repos))], Parts: parts, Digest: model.Digest(all), Hint: hint}
+				run.Count("uploads_in_chunk_sized_pieces", 1)
 			default:
 				op = uu.GenOp(rng, w.m, opts)
 			}
